@@ -3,7 +3,7 @@ import itertools
 from fractions import Fraction as Fr
 import numpy as np
 from harness import coqio as Q
-from harness.impl import lin_wcs, exc_name
+from harness.impl import poke, lin_wcs, exc_name
 
 CORR = "C08_corr"
 IMPORTS = ["Shape", "M_Rebin"]
@@ -99,6 +99,7 @@ def run(case):
     meta = {"m": 1}
     cube = NDCube(payload, wcs=lin_wcs(len(shape)), mask=mask if not (case["dask"] and isinstance(mask, np.ndarray)) else
                   __import__("dask.array", fromlist=["x"]).from_array(mask, chunks=2), unit=u.ct, meta=meta)
+    poke(cube, case["key"])
     kind, bl = case["bins"]
     bins = {"ints": lambda: tuple(int(b) for b in bl), "floats": lambda: tuple(float(b) for b in bl),
             "qty_pix": lambda: np.array(bl) * u.pix, "qty_m": lambda: np.array(bl) * u.m}[kind]()
